@@ -206,7 +206,7 @@ class Check:
         if merge:
             xp.merge_funcs |= set(merge)
         import multiprocessing as _mp
-        ob.replay_budget = _mp.Value('i', int(os.environ.get('VERIF_REPLAY_BUDGET', '6')))
+        ob.replay_budget = _mp.Value('i', int(os.environ.get('VERIF_REPLAY_BUDGET', '12')))
         ob.xp = xp
         xp.profile_forks = bool(os.environ.get('VERIF_PROFILE'))
         if pre_run:
